@@ -302,6 +302,16 @@ def labels_case(args):
                                subdiv_limit=None, progress_type="silent")
     fullf = oq.compute_dynamics_with_field(mfs, 0.5, process_tensor_list=[pt], initial_state_list=[M.RHO_PLUS],
                                            start_time=st, subdiv_limit=None, progress_type="silent")
+    # default num_steps (None): the run covers the whole process tensor, also when the list of process tensors contains
+    # the placeholder for "no environment" in either position
+    from oqupy.process_tensor import TrivialProcessTensor
+    for tag, plist in (("[pt]", [pt]), ("[pt,trivial]", [pt, TrivialProcessTensor(hilbert_space_dimension=2)]),
+                       ("[trivial,pt]", [TrivialProcessTensor(hilbert_space_dimension=2), pt])):
+        for ra in (True, False):
+            d = oq.compute_dynamics(system, M.RHO_PLUS, process_tensor=plist, start_time=st, record_all=ra,
+                                    subdiv_limit=None, progress_type="silent")
+            evals += 1
+            chk(f"compute_dynamics(num_steps=None,{tag})", ra, NPT, d.times, d.states, full.states)
     for ns in range(0, NPT + 1):
         xs = np.linspace(0.5, 1.5, max(2 * ns, 2)).reshape(max(2 * ns, 2), 1)
         gfull = None
